@@ -368,7 +368,9 @@ func c13Check(res *vh.Result, cfg *icCfg) func(r *icRun, x *vrt.Sched, cost int)
 				if end == 0 {
 					end = 1 << 30
 				}
-				inflight := l.Beg < c.Ret && c.Inv < end+1000 // joined while registered (the record outlives the loader a little)
+				// sharing is allowed only to a caller that was invoked while the loader was still running: a
+				// Get invoked after the load is over either hits the stored value or must load again
+				inflight := l.Beg < c.Ret && c.Inv < end
 				if !own && !inflight {
 					if c.OK && c.Got == l.V && l.Outcome == "ok" && l.End < c.Inv {
 						ok = true // hit on the stored result of an earlier load
